@@ -263,69 +263,78 @@ Section Names.
           ret (patch 0 (jb + 2) jb inner ++ I [opJumpBackward; jb; opNop]))))))).
   Proof. destruct e; reflexivity. Qed.
 
+  Lemma compile_NBreak f tabs t ks rest : compile (S f) NBreak (mkst tabs t ks ((false, 0) :: rest)) =
+    inr ([SI opJumpForward; SBrk], mkst tabs t ks ((false, 0) :: rest)).
+  Proof. reflexivity. Qed.
+  Lemma compile_NContinue f tabs t ks rest : compile (S f) NContinue (mkst tabs t ks ((false, 0) :: rest)) =
+    inr ([SI opJumpForward; SCont], mkst tabs t ks ((false, 0) :: rest)).
+  Proof. reflexivity. Qed.
+
   Lemma push_loop_mkst tabs t ks loops b : push_loop b (mkst tabs t ks loops) = inr (tt, mkst tabs t ks ((b, 0) :: loops)).
   Proof. reflexivity. Qed.
   Lemma pop_loop_mkst tabs t ks loops x : pop_loop (mkst tabs t ks (x :: loops)) = inr (tt, mkst tabs t ks loops).
   Proof. reflexivity. Qed.
 
-  Lemma pop_between_stmt k s : pop_between (embed_stmt names k s) = if is_expr_stmt s then [SI opPopTop] else [].
+  Lemma pop_between_stmt k s : pop_between (embed_stmt names k s) = if is_expr_stmt s then I [opPopTop] else [].
   Proof. destruct s; cbn [embed_stmt is_expr_stmt]; unfold pop_between; try reflexivity. rewrite embed_is_expression; reflexivity. Qed.
-  Lemma nil_after_stmt k s : nil_after (embed_stmt names k s) = if is_expr_stmt s then [] else [SI opNil].
+  Lemma nil_after_stmt k s : nil_after (embed_stmt names k s) = if is_expr_stmt s then [] else I [opNil].
   Proof. destruct s; cbn [embed_stmt is_expr_stmt]; unfold nil_after; try reflexivity. rewrite embed_is_expression; reflexivity. Qed.
 
   (* ---------------------------------------------------------------- statements, lists, blocks *)
   (* what holds of one statement compiled with fuel S f *)
+  Definition loops_ok (lp : bool) (loops : list (bool * nat)) : Prop :=
+    lp = true -> exists rest, loops = (false, 0) :: rest.
   Definition stmt_ok (f : nat) : Prop :=
-    forall s k tabs t ks loops top,
-      sheight s <= f -> next_k k s <= length names -> wf_stmt top k s = true -> (top = true -> t = 0) ->
-      tabs_good k tabs -> t < length tabs ->
+    forall s k tabs t ks loops top lp,
+      sheight s <= f -> next_k k s <= length names -> wf_stmt top lp k s = true -> (top = true -> t = 0) ->
+      loops_ok lp loops -> tabs_good k tabs -> t < length tabs ->
       exists tabs', compile (S f) (embed_stmt names k s) (mkst tabs t ks loops) =
-                    inr (I (fst (stmt_code k (length ks) s)), mkst tabs' t (ks ++ snd (stmt_code k (length ks) s)) loops) /\
+                    inr (fst (stmt_code k (length ks) s), mkst tabs' t (ks ++ snd (stmt_code k (length ks) s)) loops) /\
                     tabs_good (next_k k s) tabs' /\ ext tabs tabs'.
 
-  Lemma cs_list f : stmt_ok f -> forall l k tabs t ks loops top,
-    l <> [] -> max_height l <= f -> k + ndecls l <= length names -> wf_stmts top k l = true -> (top = true -> t = 0) ->
-    tabs_good k tabs -> t < length tabs ->
+  Lemma cs_list f : stmt_ok f -> forall l k tabs t ks loops top lp,
+    l <> [] -> max_height l <= f -> k + ndecls l <= length names -> wf_stmts top lp k l = true -> (top = true -> t = 0) ->
+    loops_ok lp loops -> tabs_good k tabs -> t < length tabs ->
     exists tabs', cs_loop (S f) (embed_stmts names k l) (mkst tabs t ks loops) =
-                  inr (I (fst (pcode k (length ks) l)), mkst tabs' t (ks ++ snd (pcode k (length ks) l)) loops) /\
+                  inr (fst (scode k (length ks) l), mkst tabs' t (ks ++ snd (scode k (length ks) l)) loops) /\
                   tabs_good (k + ndecls l) tabs' /\ ext tabs tabs'.
   Proof.
-    intros Hst. induction l as [|s r IH]; intros k tabs t ks loops top Hne Hh Hk Hwf Htop Hg Ht; [contradiction|].
+    intros Hst. induction l as [|s r IH]; intros k tabs t ks loops top lp Hne Hh Hk Hwf Htop Hlp Hg Ht; [contradiction|].
     rewrite wf_stmts_cons in Hwf. apply andb_true_iff in Hwf. destruct Hwf as [Hws Hwr].
     rewrite max_height_cons in Hh. rewrite embed_stmts_cons.
     assert (Hnk : next_k k s <= length names) by (rewrite <- ndecls_cons in Hk; lia).
-    destruct (Hst s k tabs t ks loops top ltac:(lia) Hnk Hws Htop Hg Ht) as [tabs1 [Hc [Hg1 Hx1]]].
+    destruct (Hst s k tabs t ks loops top lp ltac:(lia) Hnk Hws Htop Hlp Hg Ht) as [tabs1 [Hc [Hg1 Hx1]]].
     destruct r as [|s2 r2].
     - (* the last statement *)
       exists tabs1. split; [|split; [|exact Hx1]].
-      + cbn [embed_stmts embed_list cs_loop]. rewrite pcode_single. unfold bind. rewrite Hc.
+      + cbn [embed_stmts embed_list cs_loop]. rewrite scode_single. unfold bind. rewrite Hc.
         destruct (stmt_code k (length ks) s) as [c kk]. cbn [fst snd]. unfold ret.
-        rewrite nil_after_stmt, I_app. destruct (is_expr_stmt s); reflexivity.
+        rewrite nil_after_stmt. destruct (is_expr_stmt s); reflexivity.
       + rewrite <- ndecls_cons. cbn [ndecls]. rewrite Nat.add_0_r. exact Hg1.
     - (* more statements follow *)
       assert (Hr : s2 :: r2 <> []) by discriminate.
       assert (Ht1 : t < length tabs1) by (destruct Hx1 as [Hl _]; lia).
       destruct (stmt_code k (length ks) s) as [c kk] eqn:Es. cbn [fst snd] in Hc.
-      destruct (IH (next_k k s) tabs1 t (ks ++ kk) loops top Hr ltac:(lia) ltac:(rewrite ndecls_cons; exact Hk) Hwr Htop Hg1 Ht1)
+      destruct (IH (next_k k s) tabs1 t (ks ++ kk) loops top lp Hr ltac:(lia) ltac:(rewrite ndecls_cons; exact Hk) Hwr Htop Hlp Hg1 Ht1)
         as [tabs2 [Hc2 [Hg2 Hx2]]].
       exists tabs2. split; [|split; [|exact (ext_trans _ _ _ Hx1 Hx2)]].
       + rewrite (embed_stmts_cons names (next_k k s) s2 r2), cs_loop_cons, <- (embed_stmts_cons names (next_k k s) s2 r2).
         unfold bind at 1. rewrite Hc. unfold bind at 1. rewrite Hc2.
-        rewrite app_length, pcode_cons2, Es.
-        destruct (pcode (next_k k s) (length ks + length kk) (s2 :: r2)) as [cr kr]. cbn [fst snd].
-        unfold ret. rewrite pop_between_stmt, <- app_assoc, !I_app.
+        rewrite app_length, scode_cons2, Es.
+        destruct (scode (next_k k s) (length ks + length kk) (s2 :: r2)) as [cr kr]. cbn [fst snd].
+        unfold ret. rewrite pop_between_stmt, <- app_assoc.
         destruct (is_expr_stmt s); reflexivity.
       + rewrite <- ndecls_cons. exact Hg2.
   Qed.
 
   (* a whole block: opens a table, compiles the statements (Nil for none), closes it *)
-  Lemma cblock_good f : stmt_ok f -> forall l k tabs t ks loops,
-    max_height l <= f -> k <= length names -> wf_stmts false k l = true -> tabs_good k tabs -> t < length tabs ->
+  Lemma cblock_good f : stmt_ok f -> forall l k tabs t ks loops lp,
+    max_height l <= f -> k <= length names -> wf_stmts false lp k l = true -> loops_ok lp loops -> tabs_good k tabs -> t < length tabs ->
     exists tabs', cblock (S f) (embed_stmts names k l) (mkst tabs t ks loops) =
-                  inr (I (fst (block_code k (length ks) l)), mkst tabs' t (ks ++ snd (block_code k (length ks) l)) loops) /\
+                  inr (fst (block_code k (length ks) l), mkst tabs' t (ks ++ snd (block_code k (length ks) l)) loops) /\
                   tabs_good k tabs' /\ ext tabs tabs'.
   Proof.
-    intros Hst l k tabs t ks loops Hh Hk Hwf Hg Ht.
+    intros Hst l k tabs t ks loops lp Hh Hk Hwf Hlp Hg Ht.
     destruct (open_block_good k tabs t ks loops Hg Ht) as [tabs1 [Ho [Hg1 [Hx1 [Hl1 Hp1]]]]].
     unfold cblock. unfold bind at 1. rewrite Ho.
     destruct l as [|s r].
@@ -333,13 +342,13 @@ Section Names.
       cbn [embed_stmts embed_list]. rewrite block_code_nil. cbn [fst snd]. unfold bind, ret.
       rewrite (close_block_to tabs1 (length tabs) t ks loops Hp1), app_nil_r. reflexivity.
     - assert (Hne : s :: r <> []) by discriminate.
-      pose proof (wf_false_ndecls _ _ Hwf) as Hnd.
-      destruct (cs_list f Hst (s :: r) k tabs1 (length tabs) ks loops false Hne Hh ltac:(lia) Hwf ltac:(discriminate) Hg1 ltac:(lia))
+      pose proof (wf_false_ndecls _ _ _ Hwf) as Hnd.
+      destruct (cs_list f Hst (s :: r) k tabs1 (length tabs) ks loops false lp Hne Hh ltac:(lia) Hwf ltac:(discriminate) Hlp Hg1 ltac:(lia))
         as [tabs2 [Hc [Hg2 Hx2]]].
       exists tabs2. rewrite Hnd, Nat.add_0_r in Hg2. split; [|split; [exact Hg2|exact (ext_trans _ _ _ Hx1 Hx2)]].
       rewrite embed_stmts_cons. rewrite embed_stmts_cons in Hc.
       unfold bind at 1. rewrite Hc. rewrite block_code_cons.
-      destruct (pcode k (length ks) (s :: r)) as [c kk]. cbn [fst snd].
+      destruct (scode k (length ks) (s :: r)) as [c kk]. cbn [fst snd].
       unfold bind, ret. rewrite (close_block_to tabs2 (length tabs) t _ loops); [reflexivity|].
       destruct Hx2 as [_ Hpp]. rewrite Hpp by lia. exact Hp1.
   Qed.
@@ -347,8 +356,8 @@ Section Names.
   Theorem compile_stmt : forall f, stmt_ok f.
   Proof.
     induction f as [f IH] using lt_wf_ind.
-    intros s k tabs t ks loops top Hh Hk Hwf Htop Hg Ht.
-    destruct s as [e|i e|e|c tb eb|c tb|c b].
+    intros s k tabs t ks loops top lp Hh Hk Hwf Htop Hlp Hg Ht.
+    destruct s as [e|i e|e|c tb eb|c tb|c b| |].
     - (* x := e *)
       cbn [embed_stmt stmt_code next_k wf_stmt sheight] in *.
       apply andb_true_iff in Hwf. destruct Hwf as [Hto Hwf]. rewrite (Htop Hto) in *.
@@ -382,30 +391,30 @@ Section Names.
       assert (Hst : stmt_ok f) by (apply IH; lia).
       rewrite embed_SIf, code_SIf, compile_NIf.
       destruct (cexp (length ks) c) as [cc kc] eqn:Ec.
-      destruct (cblock_good f Hst tb k tabs t (ks ++ kc) loops ltac:(lia) Hk Hwt Hg Ht) as [tabs1 [Hc1 [Hg1 Hx1]]].
+      destruct (cblock_good f Hst tb k tabs t (ks ++ kc) loops lp ltac:(lia) Hk Hwt Hlp Hg Ht) as [tabs1 [Hc1 [Hg1 Hx1]]].
       rewrite app_length in Hc1.
       destruct (block_code k (length ks + length kc) tb) as [ct kt] eqn:Et. cbn [fst snd] in Hc1.
       assert (Ht1 : t < length tabs1) by (destruct Hx1 as [Hl _]; lia).
-      destruct (cblock_good f Hst eb k tabs1 t ((ks ++ kc) ++ kt) loops ltac:(lia) Hk Hwe Hg1 Ht1) as [tabs2 [Hc2 [Hg2 Hx2]]].
+      destruct (cblock_good f Hst eb k tabs1 t ((ks ++ kc) ++ kt) loops lp ltac:(lia) Hk Hwe Hlp Hg1 Ht1) as [tabs2 [Hc2 [Hg2 Hx2]]].
       rewrite !app_length in Hc2.
       destruct (block_code k (length ks + length kc + length kt) eb) as [ce ke] eqn:Ee. cbn [fst snd] in Hc2.
       exists tabs2. split; [|split; [exact Hg2|exact (ext_trans _ _ _ Hx1 Hx2)]].
       unfold bind at 1. rewrite (compile_exp k tabs t ks loops c (S f) Hg Hk Ht Hwc ltac:(lia)), Ec. cbn [fst snd].
       unfold bind at 1. rewrite Hc1. unfold bind at 1. rewrite Hc2.
-      unfold ret. rewrite !nlen_I, <- !app_assoc, !I_app. cbn [I map app]. reflexivity.
+      unfold ret. rewrite <- !app_assoc. reflexivity.
     - (* if c { tb } *)
       rewrite wf_SIf1 in Hwf. apply andb_true_iff in Hwf. destruct Hwf as [Hwc Hwt].
       rewrite sheight_SIf1 in Hh. destruct f as [|f]; [lia|]. cbn [next_k] in *.
       assert (Hst : stmt_ok f) by (apply IH; lia).
       rewrite embed_SIf1, code_SIf1, compile_NIf1.
       destruct (cexp (length ks) c) as [cc kc] eqn:Ec.
-      destruct (cblock_good f Hst tb k tabs t (ks ++ kc) loops ltac:(lia) Hk Hwt Hg Ht) as [tabs1 [Hc1 [Hg1 Hx1]]].
+      destruct (cblock_good f Hst tb k tabs t (ks ++ kc) loops lp ltac:(lia) Hk Hwt Hlp Hg Ht) as [tabs1 [Hc1 [Hg1 Hx1]]].
       rewrite app_length in Hc1.
       destruct (block_code k (length ks + length kc) tb) as [ct kt] eqn:Et. cbn [fst snd] in Hc1.
       exists tabs1. split; [|split; [exact Hg1|exact Hx1]].
       unfold bind at 1. rewrite (compile_exp k tabs t ks loops c (S f) Hg Hk Ht Hwc ltac:(lia)), Ec. cbn [fst snd].
       unfold bind at 1. rewrite Hc1. unfold bind at 1. unfold ret at 1.
-      unfold ret. rewrite !nlen_I, <- !app_assoc, !I_app. cbn [I map app length nlenN]. reflexivity.
+      unfold ret. rewrite <- !app_assoc. reflexivity.
     - (* for c { b } *)
       rewrite wf_SWhile in Hwf. apply andb_true_iff in Hwf. destruct Hwf as [Hwc Hwb].
       rewrite sheight_SWhile in Hh. destruct f as [|f]; [lia|]. cbn [next_k] in *.
@@ -413,7 +422,8 @@ Section Names.
       rewrite embed_SWhile, code_SWhile, compile_NFor_cond.
       destruct (open_block_good k tabs t ks loops Hg Ht) as [tabs1 [Ho [Hg1 [Hx1 [Hl1 Hp1]]]]].
       destruct (cexp (length ks) c) as [cc kc] eqn:Ec.
-      destruct (cblock_good f Hst b k tabs1 (length tabs) (ks ++ kc) ((false, 0) :: loops) ltac:(lia) Hk Hwb Hg1 ltac:(lia))
+      assert (Hlp' : loops_ok true ((false, 0) :: loops)) by (intros _; eexists; reflexivity).
+      destruct (cblock_good f Hst b k tabs1 (length tabs) (ks ++ kc) ((false, 0) :: loops) true ltac:(lia) Hk Hwb Hlp' Hg1 ltac:(lia))
         as [tabs2 [Hc2 [Hg2 Hx2]]].
       rewrite app_length in Hc2.
       destruct (block_code k (length ks + length kc) b) as [cb kb] eqn:Eb. cbn [fst snd] in Hc2.
@@ -423,13 +433,17 @@ Section Names.
       rewrite (compile_exp k tabs1 (length tabs) ks ((false, 0) :: loops) c (S f) Hg1 Hk ltac:(lia) Hwc ltac:(lia)), Ec. cbn [fst snd].
       unfold bind at 1. rewrite Hc2. unfold bind at 1. rewrite pop_loop_mkst.
       unfold bind at 1. rewrite (close_block_to tabs2 (length tabs) t _ loops) by (destruct Hx2 as [_ Hpp]; rewrite Hpp by lia; exact Hp1).
-      cbv zeta. unfold ret. rewrite <- !I_app, patch_I, <- I_app. rewrite !nlen_I.
-      replace (nlenN cb + 2 + 1 + 2 + 1)%N with (nlenN cb + 6)%N by lia.
-      rewrite <- !app_assoc.
-      replace (nlenN (cc ++ [opPopJumpForwardIfFalse; (nlenN cb + 6)%N] ++ cb ++ [opPopTop]))
-        with (nlenN cc + 2 + nlenN cb + 1)%N
-        by (unfold nlenN; rewrite !app_length; cbn [length]; lia).
-      reflexivity.
+      cbv zeta. unfold ret.
+      replace (nlen cb + 2 + 1 + 2 + 1)%N with (nlen cb + 6)%N by lia.
+      rewrite <- !app_assoc. reflexivity.
+    - (* break *)
+      cbn [wf_stmt] in Hwf. destruct (Hlp Hwf) as [rest ->].
+      exists tabs. split; [|split; [exact Hg|apply ext_refl]].
+      cbn [embed_stmt stmt_code fst snd]. rewrite compile_NBreak, app_nil_r. reflexivity.
+    - (* continue *)
+      cbn [wf_stmt] in Hwf. destruct (Hlp Hwf) as [rest ->].
+      exists tabs. split; [|split; [exact Hg|apply ext_refl]].
+      cbn [embed_stmt stmt_code fst snd]. rewrite compile_NContinue, app_nil_r. reflexivity.
   Qed.
 
   (* ---------------------------------------------------------------- the program *)
@@ -440,18 +454,18 @@ Section Names.
   Proof.
     unfold collect_decls. induction l as [|s r IH]; intros k; [reflexivity|].
     rewrite embed_stmts_cons.
-    destruct s as [e|i e|e|c t e|c t|c b]; cbn [embed_stmt]; try apply IH.
+    destruct s as [e|i e|e|c t e|c t|c b| |]; cbn [embed_stmt]; try apply IH.
     destruct e; cbn [embed]; apply IH.
   Qed.
 
   Theorem compile_var_program l f :
-    l <> [] -> ndecls l <= length names -> wf_stmts true 0 l = true -> max_height l <= f ->
+    l <> [] -> ndecls l <= length names -> wf_stmts true false 0 l = true -> max_height l <= f ->
     exists tabs, compile_program (S f) [] (embed_stmts names 0 l) =
                  inr (Code main_id main_id false 0 (fst (pcode 0 0 l)) (snd (pcode 0 0 l)) [] [] [], tabs).
   Proof.
     intros Hne Hn Hwf Hh.
-    destruct (cs_list f (compile_stmt f) l 0 (st_tabs (init_state [])) 0 [] [] true Hne Hh Hn Hwf (fun _ => eq_refl)
-                init_tabs_good ltac:(cbn; lia)) as [tabs [Hc _]].
+    destruct (cs_list f (compile_stmt f) l 0 (st_tabs (init_state [])) 0 [] [] true false Hne Hh Hn Hwf (fun _ => eq_refl)
+                ltac:(intros H; discriminate) init_tabs_good ltac:(cbn; lia)) as [tabs [Hc _]].
     exists tabs. unfold compile_program. rewrite init_is_mkst.
     unfold bind at 1. unfold ret at 1. unfold bind at 1.
     rewrite (collect_decls_stmts _ l 0).
@@ -466,8 +480,8 @@ Section Names.
     change (match embed_stmts names (next_k 0 s) r with [] => _ | _ :: _ => _ end)
       with (cs_loop (S f) (embed_stmt names 0 s :: embed_stmts names (next_k 0 s) r)).
     unfold bind at 1. rewrite Hc. cbn [length app Nat.add].
-    destruct (pcode 0 0 (s :: r)) as [c ks]. cbn [fst snd].
+    unfold pcode. destruct (scode 0 0 (s :: r)) as [c ks]. cbn [fst snd].
     unfold bind, cur, ret. cbn [mkst st_stack st_tabs mw w_id w_name w_consts w_names w_children].
-    rewrite strip_I. reflexivity.
+    reflexivity.
   Qed.
 End Names.
